@@ -235,7 +235,34 @@ func writeJSONServerState(stateDir string, js *jsonServerState) error {
 	if encoded, err = json.Marshal(js); err != nil {
 		return err
 	}
-	return os.WriteFile(path.Join(stateDir, stateFile), encoded, 0o600)
+	return writeFileAtomic(path.Join(stateDir, stateFile), encoded, 0o600)
+}
+
+// writeFileAtomic replaces the file at fPath with data without ever exposing
+// a truncated or partially written file under that name: the data is written
+// to a temporary file in the same directory, flushed to stable storage, and
+// then renamed over the target.  A crash at any point leaves either the old
+// or the new content in place.
+func writeFileAtomic(fPath string, data []byte, perm os.FileMode) error {
+	tmpPath := fPath + ".tmp"
+	f, err := os.OpenFile(tmpPath, os.O_WRONLY|os.O_CREATE|os.O_TRUNC, perm)
+	if err != nil {
+		return err
+	}
+	_, err = f.Write(data)
+	if err == nil {
+		err = f.Sync()
+	}
+	if cerr := f.Close(); err == nil {
+		err = cerr
+	}
+	if err == nil {
+		err = os.Rename(tmpPath, fPath)
+	}
+	if err != nil {
+		_ = os.Remove(tmpPath)
+	}
+	return err
 }
 
 func newBridgeFile(stateDir string, st *obfs4ServerState) error {
